@@ -41,6 +41,7 @@ type LeakyBucketPacer struct {
 	queue     *list.List
 	done      chan struct{}
 	closeOnce sync.Once
+	wg        sync.WaitGroup
 
 	ssrcToWriter map[uint32]interceptor.RTPWriter
 	writerLock   sync.RWMutex
@@ -73,7 +74,11 @@ func newLeakyBucketPacer(initialBitrate int, loggerFactory logging.LoggerFactory
 		},
 	}
 
-	go pacer.Run()
+	pacer.wg.Add(1)
+	go func() {
+		defer pacer.wg.Done()
+		pacer.Run()
+	}()
 
 	return pacer
 }
@@ -175,9 +180,11 @@ func (p *LeakyBucketPacer) Run() {
 	}
 }
 
-// Close closes the LeakyBucketPacer.
+// Close closes the LeakyBucketPacer. It returns after the pacing goroutine
+// has stopped, so no packet is written once Close has returned.
 func (p *LeakyBucketPacer) Close() error {
 	p.closeOnce.Do(func() { close(p.done) })
+	p.wg.Wait()
 
 	return nil
 }
